@@ -584,14 +584,7 @@ func (c *Client) monitor(ctx context.Context) {
 							activeSubs++
 						}
 
-						for _, subID := range subsToRecreate {
-							if err := c.recreateSubscription(ctx, subID); err != nil {
-								dlog.Printf("recreate subscripitions failed: %v", err)
-								action = recreateSession
-								continue
-							}
-							activeSubs++
-						}
+						activeSubs += c.recreateSubscriptions(ctx, subsToRecreate)
 
 						c.setState(ctx, Connected)
 						action = none
